@@ -354,8 +354,16 @@ func (dest *Destination) relay() {
 		} else {
 			toUnspool = nil
 		}
+		// a conn that went down must be dealt with (its in-flight data collected for the spool) before that data
+		// ages out of its keepSafe buffer, not only when the next metric or reconnect tick comes along
+		var connDown chan struct{}
+		if conn != nil {
+			connDown = conn.down
+		}
 		log.Debugf("dest %v entering select. conn: %v spooling: %v slowLastloop: %v, slowNow: %v spoolQueue: %v", dest.Key, conn != nil, dest.Spool, dest.SlowLastLoop, dest.SlowNow, toUnspool != nil)
 		select {
+		case <-connDown:
+			// handled at the top of the loop
 		case sig := <-dest.setSignalConnOnline:
 			signalConnOnline = sig
 		case inConnUpdate := <-dest.inConnUpdate:
